@@ -26,6 +26,10 @@
 (*                                                                                                        *)
 (* AbsOut(side, rm, s) is the sequence of OUTCOMES the application must see, whatever the segmentation:    *)
 (*   [t |-> "msg", start, hdrs, trls, body]   handed over: start line, header lexemes, body data lexemes   *)
+(*   [t |-> "msgopt", ...]  the same, but the recipient MAY also reject it (RFC 9112 6.3 rule 5: a Content-Length  *)
+(*                       that is a list of / a repetition of one valid number; RFC 9112 7: a transfer coding the   *)
+(*                       recipient need not implement before the final chunked).  Handed over exactly or rejected; *)
+(*                       nothing is demanded for what follows it                                                   *)
 (*   [t |-> "reject"]    invalid length information / over the cap: not handed over, nothing after it is,  *)
 (*                       and the endpoint signals an error (status >= 400, a close, a framing exception)   *)
 (*   [t |-> "stall"]     a size that is a valid number but can never be satisfied within the caps: not     *)
@@ -75,10 +79,13 @@ ClValid(H) == {Arg(H[k]) : k \in {j \in DOMAIN H : Kind(H[j]) \in {"CL", "CLL"}}
 HasKind(H, K) == \E k \in DOMAIN H : Kind(H[k]) \in K
 TeOf(H) == {Arg(H[k]) : k \in {j \in DOMAIN H : Kind(H[j]) = "TE"}}
 
-Fr(m, n) == [m |-> m, n |-> n]
+Fr(m, n) == [m |-> m, n |-> n, opt |-> FALSE]
+FrOpt(m, n) == [m |-> m, n |-> n, opt |-> TRUE]
 \* the Content-Length part of the decision
 ClFraming(H) ==
     IF HasKind(H, {"CLX", "CLBIG"}) \/ Cardinality(ClValid(H)) > 1 THEN Fr("reject", 0)
+    ELSE IF HasKind(H, {"CLL"}) \/ Cardinality({k \in DOMAIN H : Kind(H[k]) \in ClKinds}) > 1
+         THEN FrOpt("cl", CHOOSE n \in ClValid(H) : TRUE)
     ELSE Fr("cl", CHOOSE n \in ClValid(H) : TRUE)
 
 Framing(side, rm, st, H) ==
@@ -86,7 +93,7 @@ Framing(side, rm, st, H) ==
     ELSE IF side = "resp" /\ (rm = "HEAD" \/ Arg(st) \in {204, 304}) THEN Fr("none", 0)
     ELSE IF HasKind(H, {"TE"}) /\ HasKind(H, ClKinds) THEN Fr("reject", 0)
     ELSE IF HasKind(H, {"TE"}) THEN
-            (IF TeOf(H) \subseteq FinalChunked THEN Fr("chunked", 0)
+            (IF TeOf(H) \subseteq FinalChunked THEN (IF 2 \in TeOf(H) THEN FrOpt("chunked", 0) ELSE Fr("chunked", 0))
              ELSE IF side = "req" THEN Fr("reject", 0) ELSE Fr("close", 0))
     ELSE IF HasKind(H, ClKinds) THEN ClFraming(H)
     ELSE IF side = "req" THEN Fr("none", 0) ELSE Fr("close", 0)
@@ -167,7 +174,8 @@ Parse(side, rm, s, lim, i, acc) ==
               ELSE IF \E k \in DOMAIN H : Kind(H[k]) \notin HdrKinds THEN Append(acc, AnyOut)
               ELSE LET b == BodyOf(side, rm, s, lim, s[i], H, he + 1) IN
                    CASE b.r = "interim" -> Parse(side, rm, s, lim, he + 1, acc)
-                     [] b.r = "done" -> IF side = "resp" THEN Append(acc, Msg(s[i], RangeOf(H), b.trls, b.body))
+                     [] b.r = "done" -> IF Framing(side, rm, s[i], H).opt THEN Append(acc, Out("msgopt", s[i], RangeOf(H), b.trls, b.body))
+                                        ELSE IF side = "resp" THEN Append(acc, Msg(s[i], RangeOf(H), b.trls, b.body))
                                         ELSE Parse(side, rm, s, lim, b.next, Append(acc, Msg(s[i], RangeOf(H), b.trls, b.body)))
                      [] b.r = "short" -> acc
                      [] b.r = "reject" -> Append(acc, Reject)
@@ -180,7 +188,7 @@ AbsOut(side, rm, s) == Parse(side, rm, s, Len(s), 1, <<>>)
 \* the header lexemes the application may report for a handed-over message: all header fields, optionally trailers
 HdrsOk(o, seen) == o.hdrs \subseteq seen /\ seen \subseteq (o.hdrs \cup o.trls)
 NamesOf(S) == {HName(x) : x \in S}
-IsTerminal(o) == o.t \in {"reject", "stall", "any"}
+IsTerminal(o) == o.t \in {"reject", "stall", "any", "msgopt"}
 MsgsOf(E) == SelectSeq(E, LAMBDA o : o.t = "msg")
 LastT(E) == IF E = <<>> THEN "msg" ELSE E[Len(E)].t
 ==============================================================================
